@@ -159,6 +159,12 @@ def _run_job(job):
     except BaseException as e:  # harness problem (incl. Hypothesis Flaky / health errors)
         if 'case' in fail and isinstance(e, AssertionError):
             res['failure'] = {'case': codec.enc(fail['case']), 'msg': fail['msg']}
+        elif 'case' in fail and isinstance(e, hypothesis.errors.Flaky):
+            # the property DID observe a violation, but the case passed when Hypothesis ran it again: the outcome depends on
+            # state that earlier cases left in the process (module / class level caches of the code under test) - for a
+            # history-dependent defect that is the symptom itself.  Reported as a violation; the saved case is the last failing one.
+            res['failure'] = {'case': codec.enc(fail['case']),
+                              'msg': fail['msg'] + ' [not reproducible in isolation: depends on state left in the process by earlier cases]'}
         else:
             res['error'] = ''.join(traceback.format_exception(type(e), e, e.__traceback__))[-4000:]
     res.update(n=stt.n, nontrivial=sorted(stt.nontrivial), classes=stt.classes,
